@@ -92,3 +92,77 @@ class is_signature_cancelled:
         stops = isinstance(node.token, (NoteRestToken, ChordToken))
         below = len([c for c in node.children if conj(c.stage <= to_stage, R(sig, c, c.stage, to_stage))]) > 0
         return iff(bool(result), disj(same, conj(not stops, from_stage < to_stage, below)))
+
+
+# ------------------------------------------------------------------------------------------------ after the row loop of export_string
+from kernpy.core.exporter import ExportOptions as _ExportOptions
+
+
+def live_after(row):
+    """number of spine paths that leave a row (the reference spine-path rules): a split leaves two, an ended spine none, adjacent
+    join cells merge into one, everything else one"""
+    n = 0
+    for i, c in enumerate(row):
+        if c == '*^':
+            n += 2
+        elif c == '*-':
+            n += 0
+        elif c == '*v' and i > 0 and row[i - 1] == '*v':
+            n += 0
+        else:
+            n += 1
+    return n
+
+
+def is_placeholder_row(row):
+    return all(c in ('.', '*', '') for c in row)
+
+
+@contract(EX + 'Exporter.export_string', props=['C08', 'C03', 'C01'], name='export_string_tail')
+class export_string_tail:
+    """The statements after the row loop of export_string (tail contract), from the rows collected so far: the text is the rows in
+    order, cells joined by tabs, one line each, rows of placeholders left out, nothing else dropped or reordered (C03 / C01); when an
+    end measure is given and the last row is not already a terminator row, one terminator row follows, with exactly one '*-' per
+    spine path that leaves the last row (C08: every spine is terminated and the cell count is consistent with the spine operators).
+    Domain: 0..2 rows collected; the last row has 1..3 cells drawn from split / join / terminator / null interpretation / barline /
+    data and obeys the spine-path rules (a join cell has a join cell next to it); the row before it has any texts."""
+    tail = 'for stage in range('
+    assumes = ('domain: at most two rows in the state, the last one of at most three cells (the rows are Python lists here; rows of any '
+               'length: export_string_stage_step, empty_row)',)
+
+    def inputs(g):
+        nrows = g.choice('rows', [0, 1, 2])
+        rows = []
+        if nrows == 2:
+            rows.append([g.choice('row0.cell0', ['4c', '.'])])          # an earlier row: kept, or left out as a row of placeholders
+        if nrows > 0:
+            ncells = g.choice('last.cells', [1, 2, 3])
+            last = []
+            for j in range(ncells):
+                last.append(g.choice(f'last.cell{j}', ['*^', '*v', '*-', '*', '4c']))
+            rows.append(last)
+        to_measure = None if g.choice('to.none', [True, False]) else g.int('to_measure')
+        o = g.new(_ExportOptions, {'spine_types': ['**kern'], 'from_measure': None, 'to_measure': to_measure, 'token_categories': [], 'kern_type': None,
+                                   'instruments': None, 'show_measure_numbers': False, 'spine_ids': None}, None)
+        return {'self': g.new(Exporter, {}, ()), 'document': None, 'options': o, 'rows': rows, '_before': [list(r) for r in rows]}
+
+    modifies = ('rows', 'self.**')
+
+    def requires(before):
+        if len(before) == 0:
+            return True
+        last = before[-1]
+        for i, c in enumerate(last):
+            if c == '*v' and not ((i > 0 and last[i - 1] == '*v') or (i + 1 < len(last) and last[i + 1] == '*v')):
+                return False
+        return True
+
+    def post_text_is_the_rows_and_one_terminator_row(result, options, before):
+        rows = [list(r) for r in before]
+        if options.to_measure is not None and len(rows) > 0 and rows[-1][0] != '*-':
+            rows.append(['*-'] * live_after(rows[-1]))
+        want = ''
+        for r in rows:
+            if not is_placeholder_row(r):
+                want = want + '\t'.join(r) + '\n'
+        return result == want
